@@ -33,7 +33,8 @@ ASSUMPTIONS = [
     "reference evaluator in bvm/gen/tagexpr.py",
 ]
 REQUIRED = {"v1.meaning": {"quick": 3000, "thorough": 50000}, "v1.autodetect_meaning": {"quick": 3000, "thorough": 50000},
-            "v2.autodetect_meaning": {"quick": 2000, "thorough": 50000}, "mixed.rejected": {"quick": 300, "thorough": 5000}}
+            "v2.autodetect_meaning": {"quick": 2000, "thorough": 50000}, "mixed.rejected": {"quick": 300, "thorough": 5000},
+            "history.rejected_again": {"quick": 300, "thorough": 5000}}
 EXHAUSTIVE = True
 EXHAUSTIVE_SCOPE = "all CNFs with <=2 groups x <=3 alternatives over 3 tags; single-group CNFs with every decoration combination"
 NSHARDS = {"quick": 8, "thorough": 16}
@@ -159,17 +160,34 @@ def mixed_texts(rng, ast):
     return out
 
 
-def check_mixed(lab, mon, text, as_list=False):
+def check_mixed(lab, mon, text, as_list=False, monitor="mixed.rejected", history=None):
     arg = text.split(" ", 1) if as_list and " " in text else text
     case = {"kind": "mixed", "text": arg}
+    if history:
+        case["history"] = history
     mon.case(case, True)
     try:
         e = lab.make(arg, lab.P.AUTO_DETECT)
-        mon.check("mixed.rejected", False, dict(case=case, outcome="accepted", parsed=repr(e)))
+        mon.check(monitor, False, dict(case=case, outcome="accepted", parsed=repr(e)))
     except lab.Error:
-        mon.check("mixed.rejected", True)
+        mon.check(monitor, True)
     except Exception as ex:
-        mon.check("mixed.rejected", False, dict(case=case, outcome="other exception", error=repr(ex)))
+        mon.check(monitor, False, dict(case=case, outcome="other exception", error=repr(ex)))
+
+
+def parse_history(lab, mon, rng, ast, mixed):
+    """The outcome of parsing a text does not depend on what was parsed before: a rejected text is rejected again when it is
+    the very next parse (same string, or the argument list that joins to it), also right after a successful parse."""
+    v2_text = T.render_v2(ast, rng, "min", False)
+    try:
+        lab.make(v2_text, lab.P.AUTO_DETECT)                     # a successful auto-detected parse first
+    except Exception:
+        pass
+    for m in mixed:
+        first_as_list = rng.random() < 0.3
+        check_mixed(lab, mon, m, as_list=first_as_list, monitor="history.rejected_again", history="first")
+        check_mixed(lab, mon, m, as_list=first_as_list, monitor="history.rejected_again", history="same text again")
+        check_mixed(lab, mon, m, as_list=not first_as_list, monitor="history.rejected_again", history="other argument form of the same text")
 
 
 def run(spec, mon):
@@ -214,8 +232,20 @@ def run(spec, mon):
     for _ in range(60 if tier == "quick" else 3000):
         ast = T.random_tree(rng, c07.RANDOM_OPERANDS, rng.choice([1, 2, 3]))
         check_v2_auto(lab, mon, ast, rng)
-        for m in mixed_texts(rng, ast):
+        # list form whose argument starts with 'not' and has a top-level 'or': the arguments are and-ed as wholes
+        x, y, z = [T.operand(o) for o in rng.sample(c07.OPERANDS, 3)]
+        neg_or = ["or", ["not", x], y] if rng.random() < 0.7 else ["or", ["not", x], ["and", y, z]]
+        check_v2_auto(lab, mon, ["and", neg_or, z] if rng.random() < 0.5 else ["and", z, neg_or], rng)
+        mixed = mixed_texts(rng, ast)
+        for m in mixed:
             check_mixed(lab, mon, m, as_list=rng.random() < 0.3)
+        parse_history(lab, mon, rng, ast, mixed[:3])
+        if rng.random() < 0.3:
+            # valid texts twice in a row as well (string form, then list form): same truth table both times
+            groups = [rng.choice(gv4) for _ in range(rng.choice([1, 2]))]
+            args = render(groups, decor_random(rng))
+            check_cnf(lab, mon, groups, args)
+            check_cnf(lab, mon, groups, args)
     if shard == 0:
         mon.sample({"mixed_examples": mixed_texts(rng, ["and", ["lit", "a"], ["glob", "a*"]])}, force=True)
 
